@@ -1,5 +1,6 @@
 import Sigc.Run
 import Sigc.Spec
+import Sigc.Lemmas.SpecKClear
 import Sigc.Trk
 import Sigc.Adapt
 import Sigc.Visit
@@ -58,6 +59,13 @@ def main (args : List String) : IO UInt32 := do
   | ["types"] => mapLines stdin Sigc.Types.processLine; return 0
   | ["run"]   => runPrograms stdin Sigc.Model.runProgram; return 0
   | ["spec"]  => runPrograms stdin (Sigc.Spec.runProgram false false); return 0
+  | ["clear"] =>
+    -- per program: is the run clear of the known findings K1/K2 (hypothesis `SpecK.clearTop` of the end-to-end
+    -- theorem `SpecK.model_refines_pure_spec`)?
+    runPrograms stdin (fun lines =>
+      let P := Sigc.Model.parseProg lines
+      [toString (Sigc.SpecK.clearTop Sigc.Model.defaultFuel P { k1 := true, k2 := true } P.top)])
+    return 0
   | ["spec-known"] => runPrograms stdin (Sigc.Spec.runProgram true true); return 0
   | ["spec-k1"] => runPrograms stdin (Sigc.Spec.runProgram true false); return 0
   | ["spec-k2"] => runPrograms stdin (Sigc.Spec.runProgram false true); return 0
